@@ -103,6 +103,10 @@ pub struct Part {
     /// forge: LZMA2 payload made of uncompressed chunks of this many bytes (0 = reference encoder output)
     #[serde(default)]
     pub piece: usize,
+    /// read scenarios: the stream built for this part is repeated this many times (0 / 1 = once): long runs of
+    /// members / streams without shipping thousands of part records
+    #[serde(default)]
+    pub rep: usize,
 }
 
 #[derive(Deserialize, Clone, Debug)]
@@ -705,10 +709,16 @@ fn run_read(s: &Scn) -> Value {
                     _ => ours_stream(k, p, &data),
                 };
                 match r {
-                    Ok(f) => input.extend(f),
+                    Ok(f) => {
+                        for _ in 0..p.rep.max(1) {
+                            input.extend_from_slice(&f);
+                        }
+                    }
                     Err(e) => return json!({"outcome":"build_err","part":i,"err":e}),
                 }
-                content = data;
+                for _ in 0..p.rep.max(1) {
+                    content.extend_from_slice(&data);
+                }
             }
         }
         ends.push(input.len());
